@@ -8,7 +8,7 @@
 (* Encode(table, features) writes a logical table of text cells as such a  *)
 (* tree, with every optional feature of the file format switched on or off *)
 (* (column runs, row runs, text:s for single blanks, spans, several        *)
-(* paragraphs); the harness only serialises the tree to XML and zips it.   *)
+(* paragraphs, cell comments); the harness only serialises the tree to XML and zips it.   *)
 (* The decoder is the machine of ods_rows: one action per table:table-row  *)
 (* element.                                                                *)
 (*                                                                         *)
@@ -25,7 +25,7 @@ EXTENDS Integers, Sequences, FiniteSets, TLC, Json
 
 CONSTANTS Chars,            \* text alphabet, e.g. {"a", "sp", "tab", "nl", "lt"}
           MaxRows, MaxCells, MaxLen,
-          FeatureSets,      \* set of subsets of {"colruns", "rowruns", "selems", "spans", "paras"}
+          FeatureSets,      \* set of subsets of {"colruns", "rowruns", "selems", "spans", "paras", "notes"}
           Sheets,           \* set of <<number of sheets, requested sheet>>
           CollectAllText, ExpandRowRepeats
 
@@ -75,7 +75,9 @@ Runs(s) == IF s = <<>> THEN <<>>
                 ELSE <<<<1, Head(s)>>>> \o rest
 Singles(s) == [i \in 1..Len(s) |-> <<1, s[i]>>]
 EncodeRow(row, f) == LET groups == IF "colruns" \in f THEN Runs(row) ELSE Singles(row)
-                     IN [i \in 1..Len(groups) |-> [rep |-> groups[i][1], paras |-> Paragraphs(groups[i][2], f)]]
+                     \* ("notes": every cell carries a comment -- an office:annotation element with a paragraph of its own, which is
+                     \* not text of the cell)
+                     IN [i \in 1..Len(groups) |-> [rep |-> groups[i][1], paras |-> Paragraphs(groups[i][2], f), note |-> ("notes" \in f)]]
 EncodeSheet(table, f) == LET groups == IF "rowruns" \in f THEN Runs(table) ELSE Singles(table)
                          IN [i \in 1..Len(groups) |-> [rep |-> groups[i][1], cells |-> EncodeRow(groups[i][2], f)]]
 
